@@ -105,8 +105,10 @@ def r2(ctx):
     ups = [None, "", "websocket", "WebSocket", " websocket , foo", "foo", "websocketx", "h2c, WEBSOCKET"]
     cons = [None, "Upgrade", "keep-alive, Upgrade", "close", "upgrade ", "Upgraded"]
     accs = [None, "", "present"]
+    # the server selects exactly one of the offered names: a value that merely *contains* one (a token list, padding) selects nothing
     subs = [(None, None), (["chat", "Super"], None), (["chat", "Super"], "chat"), (["chat", "Super"], "SUPER"), (["chat", "Super"], "other"),
-            (["chat", "Super"], "")]
+            (["chat", "Super"], ""), (["chat", "Super"], "evil, chat"), (["chat", "Super"], "chat, super"), (["chat", "Super"], ", chat"),
+            (["chat", "Super"], "chat,"), (["chat", "Super"], "chatx")]
     stubs = {"_logging:error": lambda *a: NONE}
 
     def cd(I, run, args, kwargs, node):
@@ -478,3 +480,9 @@ def r7(ctx):
            f"fragment for a complete line (a lone '\\r' reads as the blank line that ends the response head) and a truncated response is accepted", loc,
            {"path": path_text(bad)} if bad else None)
 
+
+
+@rule("R-C09-8", min_instances=2, title="a response is judged on its own header fields: nothing read from an earlier response of the process survives into the next one (no shared mapping filled by read_headers, no cache in the validator)")
+def r_sib_r_c09_8(ctx):
+    from .c12 import r9 as no_hidden_sharing
+    no_hidden_sharing(ctx, modules=("_http", "_handshake", "_core", "_socket", "_url"))
